@@ -4,6 +4,7 @@ import (
 	"fmt"
 	"reflect"
 	"regexp"
+	"sync"
 	"testing"
 	"time"
 
@@ -44,24 +45,30 @@ var (
 	c18NullTimeCodec avro.Codec
 )
 
+var (
+	c18Once sync.Once
+	c18Err  error
+)
+
 func c18Codecs() (avro.Codec, avro.Codec, error) {
-	if c18TimeCodec == nil {
+	c18Once.Do(func() {
 		s, err := avro.SchemaFromString(`{"type":"record","name":"r","fields":[{"name":"t","type":"string"}]}`)
 		if err != nil {
-			return nil, nil, err
+			c18Err = err
+			return
 		}
 		if c18TimeCodec, err = s.Codec(timeRec{}); err != nil {
-			return nil, nil, err
+			c18Err = err
+			return
 		}
 		s2, err := avro.SchemaFromString(`{"type":"record","name":"r","fields":[{"name":"t","type":["null","string"]}]}`)
 		if err != nil {
-			return nil, nil, err
+			c18Err = err
+			return
 		}
-		if c18NullTimeCodec, err = s2.Codec(nullTimeRec{}); err != nil {
-			return nil, nil, err
-		}
-	}
-	return c18TimeCodec, c18NullTimeCodec, nil
+		c18NullTimeCodec, c18Err = s2.Codec(nullTimeRec{})
+	})
+	return c18TimeCodec, c18NullTimeCodec, c18Err
 }
 
 // decodeTime runs the string through both public paths.
